@@ -1,3 +1,774 @@
-/- C10 (statements are being added) -/
+/-
+  C10 — a declaration either fails cleanly or yields a self-consistent schema.
+-/
 import D42.Model.Decl
 import D42.Gen.Guards
+import D42.Props.C02
+
+namespace D42
+open Gen.Guards
+
+/-- the refinement methods each schema type has (a call to anything else is Python's AttributeError /
+    TypeError for a missing method — not a declaration call) -/
+def methodExists : Schema → Op → Bool
+  | .scalar (.bool _), .call _ => true
+  | .scalar (.int ..), .call _ => true
+  | .scalar (.int ..), .min _ => true
+  | .scalar (.int ..), .max _ => true
+  | .scalar (.float ..), .call _ => true
+  | .scalar (.float ..), .min _ => true
+  | .scalar (.float ..), .max _ => true
+  | .scalar (.float ..), .precision _ => true
+  | .scalar (.str ..), .call _ => true
+  | .scalar (.str ..), .len _ _ => true
+  | .scalar (.str ..), .alphabet _ => true
+  | .scalar (.str ..), .contains _ => true
+  | .scalar (.str ..), .regex _ => true
+  | .scalar (.bytes _), .call _ => true
+  | .scalar (.uuid4 _), .call _ => true
+  | .scalar (.datetime _), .call _ => true
+  | .scalar (.date _), .call _ => true
+  | .listU _, .call _ => true
+  | .listT .., .call _ => true
+  | .listE .., .call _ => true
+  | .listU _, .len _ _ => true
+  | .listT .., .len _ _ => true
+  | .listE .., .len _ _ => true
+  | .dict _ _, .call _ => true
+  | .any _, .anyCall (_ :: _) => true       -- at least the one required positional argument
+  | _, _ => false
+
+/-! ### clean equations for `declScalar` / `Decl.apply`, one per (type, method) -/
+
+theorem declScalar_bool_call (v a) : declScalar (.bool v) (.call a) =
+    (match a with
+     | .v (.bool b) => if v.isSome then DErr else .ok (.bool (some b))
+     | _ => DErr) := by
+  cases a with
+  | v x => cases x <;> rfl
+  | _ => rfl
+
+theorem declScalar_int_call (v mn mx a) : declScalar (.int v mn mx) (.call a) =
+    (match argInt a with
+     | none => DErr
+     | some n => if v.isSome then DErr else if mn.isSome || mx.isSome then DErr else .ok (.int (some n) mn mx)) := rfl
+
+theorem declScalar_int_min (v mn mx a) : declScalar (.int v mn mx) (.min a) =
+    (match argInt a with
+     | none => DErr
+     | some n => if mn.isSome then DErr else
+        (match v with | some x => if n > x then DErr else .ok (.int v (some n) mx) | none => .ok (.int v (some n) mx))) := rfl
+
+theorem declScalar_int_max (v mn mx a) : declScalar (.int v mn mx) (.max a) =
+    (match argInt a with
+     | none => DErr
+     | some n => if mx.isSome then DErr else
+        (match v with | some x => if n < x then DErr else .ok (.int v mn (some n)) | none => .ok (.int v mn (some n)))) := rfl
+
+theorem declScalar_float_call (v mn mx p d1 d2 a) : declScalar (.float v mn mx p d1 d2) (.call a) =
+    (match argFloat a with
+     | none => DErr
+     | some f => if v.isSome then DErr else if mn.isSome || mx.isSome then DErr else .ok (.float (some f) mn mx p d1 d2)) := rfl
+
+theorem declScalar_float_min (v mn mx p d1 d2 a) : declScalar (.float v mn mx p d1 d2) (.min a) =
+    (match argFloat a with
+     | none => DErr
+     | some f => if mn.isSome then DErr else
+        (match v with
+         | some x => if !(PyFloat.le f x) then DErr else .ok (.float v (some f) mx p none d2)
+         | none => .ok (.float v (some f) mx p none d2))) := rfl
+
+theorem declScalar_float_max (v mn mx p d1 d2 a) : declScalar (.float v mn mx p d1 d2) (.max a) =
+    (match argFloat a with
+     | none => DErr
+     | some f => if mx.isSome then DErr else
+        (match v with
+         | some x => if !(PyFloat.ge f x) then DErr else .ok (.float v mn (some f) p d1 none)
+         | none => .ok (.float v mn (some f) p d1 none))) := rfl
+
+theorem declScalar_float_precision (v mn mx p d1 d2 a) : declScalar (.float v mn mx p d1 d2) (.precision a) =
+    (match argInt a with
+     | none => DErr
+     | some n => if !(1 ≤ n && n ≤ (Consts.FLOAT_DIG : Int)) then DErr
+        else if p.isSome then DErr else .ok (.float v mn mx (some n.toNat) d1 d2)) := rfl
+
+theorem declScalar_str_call (v L al sub pat a) : declScalar (.str v L al sub pat) (.call a) =
+    (match argStr a with
+     | none => DErr
+     | some s => if v.isSome || L.anySet || al.isSome || sub.isSome || pat.isSome then DErr
+        else .ok (.str (some s) L al sub pat)) := rfl
+
+theorem declScalar_str_len (v L al sub pat a b) : declScalar (.str v L al sub pat) (.len a b) =
+    (if L.anySet || pat.isSome then DErr else
+     do let L' ← declLenDispatch (strDeclLen v) (strDeclMin v) (strDeclMax v) L a b
+        pure (.str v L' al sub pat)) := rfl
+
+theorem declScalar_str_alphabet (v L al sub pat a) : declScalar (.str v L al sub pat) (.alphabet a) =
+    (match argStr a with
+     | none => DErr
+     | some letters => if al.isSome then DErr else if pat.isSome then DErr else
+        (match v with
+         | some s => if s.all (fun c => letters.contains c) then .ok (.str v L (some letters) sub pat) else DErr
+         | none => .ok (.str v L (some letters) sub pat))) := rfl
+
+theorem declScalar_str_contains (v L al sub pat a) : declScalar (.str v L al sub pat) (.contains a) =
+    (match argStr a with
+     | none => DErr
+     | some x => if sub.isSome then DErr else if pat.isSome then DErr else
+        (match v with
+         | some s => if isInfixB x s then .ok (.str v L al (some x) pat) else DErr
+         | none => .ok (.str v L al (some x) pat))) := rfl
+
+theorem declScalar_str_regex (v L al sub pat a) : declScalar (.str v L al sub pat) (.regex a) =
+    (match a with
+     | .pat compiles p m =>
+        if pat.isSome || al.isSome || L.anySet || sub.isSome then DErr
+        else if !compiles then DErr
+        else (match v with
+          | some _ => if m then .ok (.str v L al sub (some p)) else DErr
+          | none => .ok (.str v L al sub (some p)))
+     | _ => DErr) := by
+  cases a <;> rfl
+
+theorem declScalar_bytes_call (v a) : declScalar (.bytes v) (.call a) =
+    (match a with
+     | .v (.bytes b) => if v.isSome then DErr else .ok (.bytes (some b))
+     | _ => DErr) := by
+  cases a with
+  | v x => cases x <;> rfl
+  | _ => rfl
+
+theorem declScalar_uuid4_call (v a) : declScalar (.uuid4 v) (.call a) =
+    (match a with
+     | .v (.uuid i ver) => if ver ≠ 4 then DErr else if v.isSome then DErr else .ok (.uuid4 (some (i, ver)))
+     | _ => DErr) := by
+  cases a with
+  | v x => cases x <;> rfl
+  | _ => rfl
+
+theorem declScalar_datetime_call (v a) : declScalar (.datetime v) (.call a) =
+    (match a with
+     | .v (.datetime i) => if v.isSome then DErr else .ok (.datetime (some i))
+     | _ => DErr) := by
+  cases a with
+  | v x => cases x <;> rfl
+  | _ => rfl
+
+theorem declScalar_date_call (v a) : declScalar (.date v) (.call a) =
+    (match a with
+     | .v (.date i) => if v.isSome then DErr else .ok (.date (some (false, i)))
+     | .v (.datetime i) => if v.isSome then DErr else .ok (.date (some (true, i)))
+     | _ => DErr) := by
+  cases a with
+  | v x => cases x <;> rfl
+  | _ => rfl
+
+theorem declScalar_noMethod (k op) (h : methodExists (.scalar k) op = false) :
+    declScalar k op = .error .attributeError := by
+  cases k <;> cases op <;> first | rfl | (simp [methodExists] at h)
+
+
+/-! ### error kind -/
+
+/-! helper lemmas: every raise point of the `len(...)` helpers, `buildKeys` and `declScalar` is a DeclarationError -/
+
+theorem strDeclLen_err (v L a e) (h : strDeclLen v L a = .error e) : e = .declarationError := by
+  unfold strDeclLen at h; grind
+theorem strDeclMin_err (v L a e) (h : strDeclMin v L a = .error e) : e = .declarationError := by
+  unfold strDeclMin at h; grind
+theorem strDeclMax_err (v L a e) (h : strDeclMax v L a = .error e) : e = .declarationError := by
+  unfold strDeclMax at h; grind
+theorem listDeclLen_err (v L a e) (h : listDeclLen v L a = .error e) : e = .declarationError := by
+  unfold listDeclLen at h; grind
+theorem listDeclMin_err (v L a e) (h : listDeclMin v L a = .error e) : e = .declarationError := by
+  unfold listDeclMin at h; grind
+theorem listDeclMax_err (v L a e) (h : listDeclMax v L a = .error e) : e = .declarationError := by
+  unfold listDeclMax at h; grind
+
+theorem declLenDispatch_err (dl dmin dmax : LenP → Arg → Except PyExc LenP)
+    (h1 : ∀ L a e, dl L a = .error e → e = .declarationError)
+    (h2 : ∀ L a e, dmin L a = .error e → e = .declarationError)
+    (h3 : ∀ L a e, dmax L a = .error e → e = .declarationError)
+    (L a b e) (h : declLenDispatch dl dmin dmax L a b = .error e) : e = .declarationError := by
+  unfold declLenDispatch at h
+  split at h
+  · exact h3 _ _ _ h
+  · split at h
+    · exact h1 _ _ _ h
+    · split at h
+      · exact h2 _ _ _ h
+      · cases h' : dmin L a with
+        | error e' =>
+          simp [h', bind, Except.bind] at h
+          subst h; exact h2 _ _ _ h'
+        | ok L' =>
+          simp [h', bind, Except.bind] at h
+          exact h3 _ _ _ h
+
+theorem strLen_err (v L a b e) (h : declLenDispatch (strDeclLen v) (strDeclMin v) (strDeclMax v) L a b = .error e) :
+    e = .declarationError :=
+  declLenDispatch_err _ _ _ (strDeclLen_err v) (strDeclMin_err v) (strDeclMax_err v) L a b e h
+
+theorem listLen_err (v L a b e) (h : declLenDispatch (listDeclLen v) (listDeclMin v) (listDeclMax v) L a b = .error e) :
+    e = .declarationError :=
+  declLenDispatch_err _ _ _ (listDeclLen_err v) (listDeclMin_err v) (listDeclMax_err v) L a b e h
+
+theorem buildKeys_err : ∀ (kvs fs ell n e), buildKeys kvs fs ell n = .error e → e = .declarationError
+  | [], fs, ell, n, e, h => by simp [buildKeys] at h
+  | (.ell, .ell) :: r, fs, ell, n, e, h => by
+    simp only [buildKeys] at h; exact buildKeys_err _ _ _ _ _ h
+  | (.ell, .sch _) :: _, _, _, _, e, h => by simp [buildKeys] at h; exact h.symm
+  | (.ell, .bad) :: _, _, _, _, e, h => by simp [buildKeys] at h; exact h.symm
+  | (.key _ _, .ell) :: _, _, _, _, e, h => by simp [buildKeys] at h; exact h.symm
+  | (.key _ _, .bad) :: _, _, _, _, e, h => by simp [buildKeys] at h; exact h.symm
+  | (.key k o, .sch s) :: r, fs, ell, n, e, h => by
+    simp only [buildKeys] at h; exact buildKeys_err _ _ _ _ _ h
+
+theorem bind_err {α β} (x : Except PyExc α) (f : α → Except PyExc β) (e)
+    (h : (x >>= f) = .error e) : x = .error e ∨ ∃ a, x = .ok a ∧ f a = .error e := by
+  cases x with
+  | error e' => left; simpa [bind, Except.bind] using h
+  | ok a => right; exact ⟨a, rfl, by simpa [bind, Except.bind] using h⟩
+
+
+
+theorem declScalar_err (k : ScalarS) (op : Op) (e : PyExc)
+    (hm : methodExists (.scalar k) op = true) (h : declScalar k op = .error e) : e = .declarationError := by
+  cases k <;> cases op <;> simp [methodExists] at hm
+  all_goals (simp only [declScalar_bool_call, declScalar_int_call, declScalar_int_min, declScalar_int_max,
+    declScalar_float_call, declScalar_float_min, declScalar_float_max, declScalar_float_precision,
+    declScalar_str_call, declScalar_str_len, declScalar_str_alphabet, declScalar_str_contains,
+    declScalar_str_regex, declScalar_bytes_call, declScalar_uuid4_call, declScalar_datetime_call,
+    declScalar_date_call] at h)
+  all_goals first
+    | grind
+    | (split at h
+       · cases h; rfl
+       · rcases bind_err _ _ _ h with h' | ⟨L', _, h'⟩
+         · exact strLen_err _ _ _ _ _ h'
+         · simp [pure, Except.pure] at h')
+
+
+/-- **C10 (error kind).** A declaration call with arguments of *any* type (wrong types, `...`, `Nil`,
+    bool-as-int, negative lengths, NaN, junk element lists and key tables) fails only with DeclarationError. -/
+theorem decl_error_kind (s : Schema) (op : Op) (e : PyExc)
+    (hm : methodExists s op = true) (h : Decl.apply s op = .error e) : e = .declarationError := by
+  cases s with
+  | scalar k =>
+    simp only [Decl.apply] at h
+    rcases bind_err _ _ _ h with h' | ⟨k', _, h'⟩
+    · exact declScalar_err k op e hm h'
+    · simp [pure, Except.pure] at h'
+  | listU L =>
+    cases op <;> simp [methodExists] at hm
+    case call a =>
+      unfold Decl.apply at h
+      split at h <;> first | (simp at h; done) | grind
+    case len a b =>
+      simp only [Decl.apply] at h
+      split at h
+      · cases h; rfl
+      · rcases bind_err _ _ _ h with h' | ⟨L', _, h'⟩
+        · exact listLen_err _ _ _ _ _ h'
+        · simp [pure, Except.pure] at h'
+  | listT t L =>
+    cases op <;> simp [methodExists] at hm
+    case call a =>
+      unfold Decl.apply at h
+      split at h <;> first | (simp at h; done) | grind
+    case len a b =>
+      simp only [Decl.apply] at h
+      split at h
+      · cases h; rfl
+      · rcases bind_err _ _ _ h with h' | ⟨L', _, h'⟩
+        · exact listLen_err _ _ _ _ _ h'
+        · simp [pure, Except.pure] at h'
+  | listE lead es trail L =>
+    cases op <;> simp [methodExists] at hm
+    case call a =>
+      unfold Decl.apply at h
+      split at h <;> first | (simp at h; done) | grind
+    case len a b =>
+      simp only [Decl.apply] at h
+      split at h
+      · cases h; rfl
+      · rcases bind_err _ _ _ h with h' | ⟨L', _, h'⟩
+        · exact listLen_err _ _ _ _ _ h'
+        · simp [pure, Except.pure] at h'
+  | dict fs ell =>
+    cases op <;> simp [methodExists] at hm
+    case call a =>
+      cases fs <;> cases a <;> simp [Decl.apply] at h <;> try (exact h.symm)
+      rename_i kvs
+      cases hb : buildKeys kvs [] none 0 with
+      | error e' => rw [hb] at h; cases h; exact buildKeys_err _ _ _ _ _ hb
+      | ok r => rw [hb] at h; cases h
+  | any ts =>
+    cases op <;> simp [methodExists] at hm
+    case anyCall as =>
+      cases as with
+      | nil => simp at hm
+      | cons a as' =>
+        simp only [Decl.apply] at h
+        split at h
+        · cases h; rfl
+        · simp at h; split at h <;> cases h; rfl
+  | alias n t => simp [methodExists] at hm
+  | custom t => simp [methodExists] at hm
+
+/-- every op of a chain is a method of the schema it is applied to -/
+def ChainValid : Schema → List Op → Prop
+  | _, [] => True
+  | s, op :: ops => methodExists s op = true ∧ ∀ s', Decl.apply s op = .ok s' → ChainValid s' ops
+
+/-- the same for chains of any length (the property's bound of 4 is not needed) -/
+theorem decl_run_error_kind : ∀ (ops : List Op) (s : Schema) (e : PyExc),
+    ChainValid s ops → Decl.run s ops = .error e → e = .declarationError
+  | [], s, e, _, h => by simp [Decl.run] at h
+  | op :: ops, s, e, hc, h => by
+    simp only [Decl.run] at h
+    simp only [ChainValid] at hc
+    obtain ⟨hm, hrest⟩ := hc
+    rcases bind_err _ _ _ h with h' | ⟨s', hs', h'⟩
+    · exact decl_error_kind _ _ _ hm h'
+    · exact decl_run_error_kind ops s' e (hrest s' hs') h'
+
+
+/-! ### re-declaration (tie to the guard table extracted from the source) -/
+
+/-- which props a schema has declared, in the vocabulary of the generated guard table -/
+def declaredProps : Schema → List Prop_
+  | .scalar (.bool v) => if v.isSome then [.p_value] else []
+  | .scalar (.int v mn mx) => (if v.isSome then [.p_value] else []) ++ (if mn.isSome then [.p_min] else []) ++ (if mx.isSome then [.p_max] else [])
+  | .scalar (.float v mn mx p _ _) => (if v.isSome then [.p_value] else []) ++ (if mn.isSome then [.p_min] else []) ++
+      (if mx.isSome then [.p_max] else []) ++ (if p.isSome then [.p_precision] else [])
+  | .scalar (.str v L al sub pat) => (if v.isSome then [.p_value] else []) ++ (if L.len.isSome then [.p_len] else []) ++
+      (if L.minLen.isSome then [.p_min_len] else []) ++ (if L.maxLen.isSome then [.p_max_len] else []) ++
+      (if al.isSome then [.p_alphabet] else []) ++ (if sub.isSome then [.p_substr] else []) ++ (if pat.isSome then [.p_pattern] else [])
+  | .scalar (.bytes v) => if v.isSome then [.p_value] else []
+  | .scalar (.uuid4 v) => if v.isSome then [.p_value] else []
+  | .scalar (.datetime v) => if v.isSome then [.p_value] else []
+  | .scalar (.date v) => if v.isSome then [.p_value] else []
+  | .scalar .none => []
+  | .listU L => (if L.len.isSome then [.p_len] else []) ++ (if L.minLen.isSome then [.p_min_len] else []) ++ (if L.maxLen.isSome then [.p_max_len] else [])
+  | .listT _ L => [.p_type] ++ (if L.len.isSome then [.p_len] else []) ++ (if L.minLen.isSome then [.p_min_len] else []) ++ (if L.maxLen.isSome then [.p_max_len] else [])
+  | .listE _ _ _ L => [.p_elements] ++ (if L.len.isSome then [.p_len] else []) ++ (if L.minLen.isSome then [.p_min_len] else []) ++ (if L.maxLen.isSome then [.p_max_len] else [])
+  | .dict none _ => []
+  | .dict (some _) _ => [.p_keys]
+  | .any none => []
+  | .any (some _) => [.p_types]
+  | .alias .. => []
+  | .custom _ => []
+
+def tyName : Schema → String
+  | .scalar (.bool _) => "bool" | .scalar (.int ..) => "int" | .scalar (.float ..) => "float"
+  | .scalar (.str ..) => "str" | .scalar (.bytes _) => "bytes" | .scalar (.uuid4 _) => "uuid4"
+  | .scalar (.datetime _) => "datetime" | .scalar (.date _) => "date" | .scalar .none => "none"
+  | .listU _ => "list" | .listT .. => "list" | .listE .. => "list"
+  | .dict .. => "dict" | .any _ => "any" | .alias .. => "alias" | .custom _ => "custom"
+
+/-- the method names of the table rows an op can correspond to (the `len(...)` forms share their U) -/
+def methodNames : Op → List String
+  | .call _ => ["call"]
+  | .anyCall _ => ["call"]
+  | .min _ => ["min"]
+  | .max _ => ["max"]
+  | .precision _ => ["precision"]
+  | .len _ _ => ["len[len]", "len[min_len]", "len[max_len]", "len[min_len+max_len]"]
+  | .alphabet _ => ["alphabet"]
+  | .contains _ => ["contains"]
+  | .regex _ => ["regex"]
+
+
+/-! ### re-declaration: the guard sets of the table rows matching a call -/
+
+def guardOf (ty : String) (ms : List String) : List Prop_ :=
+  (table.filter (fun r => r.ty == ty && ms.contains r.method)).flatMap (·.U)
+
+theorem mem_guardOf (r : Row) (hr : r ∈ table) (ty : String) (ms : List String) (hty : r.ty = ty)
+    (hm : r.method ∈ ms) (n : Prop_) (hn : n ∈ r.U) : n ∈ guardOf ty ms := by
+  simp only [guardOf, List.mem_flatMap, List.mem_filter]
+  exact ⟨r, ⟨hr, by simp [hty, hm]⟩, hn⟩
+
+theorem bind_ok {α β} (x : Except PyExc α) (f : α → Except PyExc β) (b)
+    (h : (x >>= f) = .ok b) : ∃ a, x = .ok a ∧ f a = .ok b := by
+  cases x with
+  | error e' => simp [bind, Except.bind] at h
+  | ok a => exact ⟨a, rfl, by simpa [bind, Except.bind] using h⟩
+
+local macro "guard_tac" : tactic =>
+  `(tactic| (simp [guardOf, table, tyName, methodNames, declaredProps]
+             grind [Option.isSome_iff_ne_none, LenP.anySet]))
+
+theorem ok_scalar_unguarded (k : ScalarS) (k' : ScalarS) (op : Op)
+    (h : declScalar k op = .ok k') :
+    ∀ n ∈ guardOf (tyName (.scalar k)) (methodNames op), n ∉ declaredProps (.scalar k) := by
+  cases hm : methodExists (.scalar k) op with
+  | false => rw [declScalar_noMethod k op hm] at h; cases h
+  | true =>
+    cases k <;> cases op <;> simp [methodExists] at hm
+    case bool.call v a => rw [declScalar_bool_call] at h; guard_tac
+    case int.call v mn mx a => rw [declScalar_int_call] at h; guard_tac
+    case int.min v mn mx a => rw [declScalar_int_min] at h; guard_tac
+    case int.max v mn mx a => rw [declScalar_int_max] at h; guard_tac
+    case float.call v mn mx p d1 d2 a => rw [declScalar_float_call] at h; guard_tac
+    case float.min v mn mx p d1 d2 a => rw [declScalar_float_min] at h; guard_tac
+    case float.max v mn mx p d1 d2 a => rw [declScalar_float_max] at h; guard_tac
+    case float.precision v mn mx p d1 d2 a => rw [declScalar_float_precision] at h; guard_tac
+    case str.call v L al sub pat a => rw [declScalar_str_call] at h; guard_tac
+    case str.len v L al sub pat a b =>
+      rw [declScalar_str_len] at h
+      split at h
+      · cases h
+      · guard_tac
+    case str.alphabet v L al sub pat a => rw [declScalar_str_alphabet] at h; guard_tac
+    case str.contains v L al sub pat a => rw [declScalar_str_contains] at h; guard_tac
+    case str.regex v L al sub pat a => rw [declScalar_str_regex] at h; guard_tac
+    case bytes.call v a => rw [declScalar_bytes_call] at h; guard_tac
+    case uuid4.call v a => rw [declScalar_uuid4_call] at h; guard_tac
+    case datetime.call v a => rw [declScalar_datetime_call] at h; guard_tac
+    case date.call v a => rw [declScalar_date_call] at h; guard_tac
+
+theorem apply_scalar (k op) : Decl.apply (.scalar k) op = (do let k' ← declScalar k op; pure (.scalar k')) := rfl
+
+theorem apply_listU_call (L a) : Decl.apply (.listU L) (.call a) =
+    (match a with
+     | .sch t => if L.anySet then DErr else .ok (.listT t L)
+     | .elems xs => if L.anySet then DErr else if elemsOk xs then .ok (mkListE xs L) else DErr
+     | _ => DErr) := by
+  cases a <;> rfl
+
+theorem apply_listT_call (t L a) : Decl.apply (.listT t L) (.call a) = DErr := by
+  cases a <;> rfl
+
+theorem apply_listE_call (lead es trail L a) : Decl.apply (.listE lead es trail L) (.call a) = DErr := rfl
+
+theorem apply_listU_len (L a b) : Decl.apply (.listU L) (.len a b) =
+    (if L.anySet then DErr else
+     do let L' ← declLenDispatch (listDeclLen none) (listDeclMin none) (listDeclMax none) L a b; pure (.listU L')) := rfl
+
+theorem apply_listT_len (t L a b) : Decl.apply (.listT t L) (.len a b) =
+    (if L.anySet then DErr else
+     do let L' ← declLenDispatch (listDeclLen none) (listDeclMin none) (listDeclMax none) L a b; pure (.listT t L')) := rfl
+
+theorem apply_listE_len (lead es trail L a b) : Decl.apply (.listE lead es trail L) (.len a b) =
+    (if L.anySet then DErr else
+     do let L' ← declLenDispatch (listDeclLen (some (es.length, lead || trail))) (listDeclMin (some (es.length, lead || trail)))
+                  (listDeclMax (some (es.length, lead || trail))) L a b
+        pure (.listE lead es trail L')) := rfl
+
+theorem apply_dict_some_call (fs ell a) : Decl.apply (.dict (some fs) ell) (.call a) = DErr := by
+  cases a <;> rfl
+
+theorem apply_any_some (ts as) : ∃ e, Decl.apply (.any (some ts)) (.anyCall as) = .error e := by
+  simp only [Decl.apply]
+  split
+  · exact ⟨_, rfl⟩
+  · split
+    · exact ⟨_, rfl⟩
+    · exact ⟨_, rfl⟩
+
+theorem apply_noMethod (s op) (h : methodExists s op = false) : ∃ e, Decl.apply s op = .error e := by
+  cases s with
+  | scalar k => exact ⟨_, by rw [apply_scalar, declScalar_noMethod k op h]; rfl⟩
+  | any ts =>
+    cases op
+    case anyCall as =>
+      cases as with
+      | nil => exact ⟨.typeError, by simp [Decl.apply, allSch]⟩
+      | cons a as => simp [methodExists] at h
+    all_goals exact ⟨_, rfl⟩
+  | dict fs ell => cases fs <;> cases op <;> first | exact ⟨_, rfl⟩ | (simp [methodExists] at h; done)
+  | _ => cases op <;> first | exact ⟨_, rfl⟩ | (simp [methodExists] at h; done)
+
+/-- a successful call: nothing in the guard sets of the matching rows was declared -/
+theorem ok_unguarded (s s' : Schema) (op : Op) (h : Decl.apply s op = .ok s') :
+    ∀ n ∈ guardOf (tyName s) (methodNames op), n ∉ declaredProps s := by
+  cases hm : methodExists s op with
+  | false => obtain ⟨e, he⟩ := apply_noMethod s op hm; rw [he] at h; cases h
+  | true =>
+    cases s with
+    | scalar k =>
+      rw [apply_scalar] at h
+      obtain ⟨k', hk, _⟩ := bind_ok _ _ _ h
+      exact ok_scalar_unguarded k k' op hk
+    | listU L =>
+      cases op <;> simp [methodExists] at hm
+      case call a => rw [apply_listU_call] at h; guard_tac
+      case len a b => rw [apply_listU_len] at h; split at h; · cases h
+                      · guard_tac
+    | listT t L =>
+      cases op <;> simp [methodExists] at hm
+      case call a => rw [apply_listT_call] at h; cases h
+      case len a b => rw [apply_listT_len] at h; split at h; · cases h
+                      · guard_tac
+    | listE lead es trail L =>
+      cases op <;> simp [methodExists] at hm
+      case call a => rw [apply_listE_call] at h; cases h
+      case len a b => rw [apply_listE_len] at h; split at h; · cases h
+                      · guard_tac
+    | dict fs ell =>
+      cases op <;> simp [methodExists] at hm
+      case call a =>
+        cases fs with
+        | none => simp [declaredProps]
+        | some fs => rw [apply_dict_some_call] at h; cases h
+    | any ts =>
+      cases ts with
+      | none => simp [declaredProps]
+      | some ts =>
+        cases op <;> simp [methodExists] at hm
+        case anyCall as => obtain ⟨e, he⟩ := apply_any_some ts as; rw [he] at h; cases h
+    | alias nm t => simp [methodExists] at hm
+    | custom t => simp [methodExists] at hm
+
+/-- **C10 (re-declaration).** If a prop listed in the *extracted* already-declared set `U` of the
+    method's row is declared on the receiver, the model rejects the call — i.e. the model follows the
+    guard table generated from the current source. -/
+theorem redeclare_rejected (s : Schema) (op : Op) (r : Row)
+    (hr : r ∈ table) (hty : r.ty = tyName s) (hm : r.method ∈ methodNames op)
+    (hmeth : methodExists s op = true)
+    (hdecl : ∃ n ∈ r.U, n ∈ declaredProps s) :
+    Decl.apply s op = .error .declarationError := by
+  obtain ⟨n, hnU, hnd⟩ := hdecl
+  cases h : Decl.apply s op with
+  | error e => rw [decl_error_kind s op e hmeth h]
+  | ok s' => exact absurd hnd (ok_unguarded s s' op h n (mem_guardOf r hr _ _ hty hm n hnU))
+
+/-- conversely the model raises "already declared"-style errors for nothing outside the table: a
+    successful call means no guarded prop was declared -/
+theorem ok_means_unguarded (s s' : Schema) (op : Op) (r : Row)
+    (hr : r ∈ table) (hty : r.ty = tyName s) (hm : r.method ∈ methodNames op)
+    (h : Decl.apply s op = .ok s') : ∀ n ∈ r.U, n ∉ declaredProps s :=
+  fun n hn => ok_unguarded s s' op h n (mem_guardOf r hr _ _ hty hm n hn)
+
+/-! ### self-consistency of a fixed value (scalars) -/
+
+/-- the fixed value of a scalar schema, as a Python value -/
+def ScalarS.fixed : ScalarS → Option PyVal
+  | .none => Option.none
+  | .bool v => v.map PyVal.bool
+  | .int v _ _ => v.map PyVal.int
+  | .float v _ _ _ _ _ => v.map PyVal.float
+  | .str v _ _ _ _ => v.map PyVal.str
+  | .bytes v => v.map PyVal.bytes
+  | .uuid4 v => v.map (fun iv => PyVal.uuid iv.1 iv.2)
+  | .datetime v => v.map PyVal.datetime
+  | .date v => v.map (fun bi => if bi.1 then PyVal.datetime bi.2 else PyVal.date bi.2)
+
+/-- "whenever the schema carries a fixed value, that value conforms to the schema itself" -/
+def SelfConsistent (env : Env) (k : ScalarS) : Prop :=
+  ∀ v, k.fixed = some v → validateScalar env k v [] = []
+
+/-- the external fact `regex()` consults must be what the validator will see -/
+def RegexFactOK (env : Env) (k : ScalarS) : Op → Prop
+  | .regex (.pat _ p m) => ∀ s, k.fixed = some (.str s) → m = env.rxSearch p.id s
+  | _ => True
+
+/-- no NaN as a fixed value or bound (finding K6) -/
+def OpNoNaN : Op → Prop
+  | .call (.v (.float .nan)) => False
+  | .min (.v (.float .nan)) => False
+  | .max (.v (.float .nan)) => False
+  | _ => True
+
+
+/-! ### self-consistency -/
+
+theorem PyFloat.eq_self (f : PyFloat) (h : f ≠ .nan) : PyFloat.eq f f = true := by
+  cases f <;> simp [PyFloat.eq] at *
+
+theorem floatValueOk_self (env : Env) (f : PyFloat) (p : Option Nat) (h : f ≠ .nan) :
+    floatValueOk env f f p = true := by
+  cases p with
+  | none => simp [floatValueOk, isclose, PyFloat.eq_self f h]
+  | some pr =>
+    simp only [floatValueOk, eqAtPrecision]
+    split
+    · rename_i a b h1 h2
+      rw [h1] at h2; cases h2; simp
+    · exact PyFloat.eq_self f h
+
+theorem floatValueOk_nan (env : Env) (p : Option Nat) : floatValueOk env .nan .nan p = false := by
+  cases p with
+  | none => simp [floatValueOk, isclose, PyFloat.eq]
+  | some pr => simp [floatValueOk, eqAtPrecision, fscale, pyRound, PyFloat.eq]
+
+theorem floatValueOk_self_ne_nan (env : Env) (f : PyFloat) (p : Option Nat)
+    (h : floatValueOk env f f p = true) : f ≠ .nan := by
+  intro hf; subst hf; rw [floatValueOk_nan] at h; cases h
+
+theorem argFloat_eq (a f) (h : argFloat a = some f) : a = .v (.float f) := by
+  cases a with
+  | v x => cases x <;> simp [argFloat] at h; rw [h]
+  | _ => simp [argFloat] at h
+
+
+theorem strDeclLen_ok (v L a L') (h : strDeclLen v L a = .ok L') :
+    L'.minLen = L.minLen ∧ L'.maxLen = L.maxLen ∧ ∃ n, L'.len = some n ∧ ∀ s, v = some s → (s.length : Int) = n := by
+  unfold strDeclLen at h; grind
+theorem strDeclMin_ok (v L a L') (h : strDeclMin v L a = .ok L') :
+    L'.len = L.len ∧ L'.maxLen = L.maxLen ∧ ∃ n, L'.minLen = some n ∧ ∀ s, v = some s → n ≤ (s.length : Int) := by
+  unfold strDeclMin at h; grind
+theorem strDeclMax_ok (v L a L') (h : strDeclMax v L a = .ok L') :
+    L'.len = L.len ∧ L'.minLen = L.minLen ∧ ∃ n, L'.maxLen = some n ∧ ∀ s, v = some s → (s.length : Int) ≤ n := by
+  unfold strDeclMax at h; grind
+
+theorem strLenDispatch_ok (v : Option Str) (L : LenP) (a b : Arg) (L' : LenP) (hL : L.anySet = false)
+    (h : declLenDispatch (strDeclLen v) (strDeclMin v) (strDeclMax v) L a b = .ok L') :
+    ∀ s, v = some s → LenOK L' s.length := by
+  have hL' : L.len = none ∧ L.minLen = none ∧ L.maxLen = none := by
+    simp [LenP.anySet] at hL; exact ⟨hL.1.1, hL.1.2, hL.2⟩
+  unfold declLenDispatch at h
+  intro s hs
+  split at h
+  · have := strDeclMax_ok _ _ _ _ h; grind [LenOK]
+  · split at h
+    · have := strDeclLen_ok _ _ _ _ h; grind [LenOK]
+    · split at h
+      · have := strDeclMin_ok _ _ _ _ h; grind [LenOK]
+      · obtain ⟨L1, h1, h2⟩ := bind_ok _ _ _ h
+        have := strDeclMin_ok _ _ _ _ h1
+        have := strDeclMax_ok _ _ _ _ h2
+        grind [LenOK]
+
+
+/-- a fresh scalar of every type is self-consistent -/
+theorem fresh_selfConsistent (env : Env) :
+    SelfConsistent env .none ∧ SelfConsistent env (.bool none) ∧ SelfConsistent env (.int none none none) ∧
+    SelfConsistent env (.float none none none none none none) ∧ SelfConsistent env (.str none {} none none none) ∧
+    SelfConsistent env (.bytes none) ∧ SelfConsistent env (.uuid4 none) ∧ SelfConsistent env (.datetime none) ∧
+    SelfConsistent env (.date none) := by
+  refine ⟨?_, ?_, ?_, ?_, ?_, ?_, ?_, ?_, ?_⟩ <;> intro v hv <;> simp [ScalarS.fixed] at hv
+
+/-- **C10 (self-consistency).** Every successful refinement of a self-consistent scalar schema is
+    self-consistent: declaration rejects every constraint that contradicts an already fixed value. -/
+theorem decl_preserves_selfConsistent (env : Env) (k k' : ScalarS) (op : Op)
+    (hc : SelfConsistent env k) (hr : RegexFactOK env k op) (hn : OpNoNaN op)
+    (h : declScalar k op = .ok k') : SelfConsistent env k' := by
+  cases hm : methodExists (.scalar k) op with
+  | false => rw [declScalar_noMethod k op hm] at h; cases h
+  | true =>
+    cases k <;> cases op <;> simp [methodExists] at hm
+    case bool.call v a =>
+      rw [declScalar_bool_call] at h
+      simp only [SelfConsistent, validateScalar_nil_iff] at hc ⊢
+      intro w hw
+      grind [ScalarS.fixed, ConformsScalar]
+    case int.call v mn mx a =>
+      rw [declScalar_int_call] at h
+      simp only [SelfConsistent, validateScalar_nil_iff] at hc ⊢
+      intro w hw
+      grind [ScalarS.fixed, ConformsScalar, asInt]
+    case int.min v mn mx a =>
+      rw [declScalar_int_min] at h
+      simp only [SelfConsistent, validateScalar_nil_iff] at hc ⊢
+      intro w hw
+      grind [ScalarS.fixed, ConformsScalar, asInt]
+    case int.max v mn mx a =>
+      rw [declScalar_int_max] at h
+      simp only [SelfConsistent, validateScalar_nil_iff] at hc ⊢
+      intro w hw
+      grind [ScalarS.fixed, ConformsScalar, asInt]
+    case bytes.call v a =>
+      rw [declScalar_bytes_call] at h
+      simp only [SelfConsistent, validateScalar_nil_iff] at hc ⊢
+      intro w hw
+      grind [ScalarS.fixed, ConformsScalar]
+    case uuid4.call v a =>
+      rw [declScalar_uuid4_call] at h
+      simp only [SelfConsistent, validateScalar_nil_iff] at hc ⊢
+      intro w hw
+      grind [ScalarS.fixed, ConformsScalar]
+    case datetime.call v a =>
+      rw [declScalar_datetime_call] at h
+      simp only [SelfConsistent, validateScalar_nil_iff] at hc ⊢
+      intro w hw
+      grind [ScalarS.fixed, ConformsScalar]
+    case date.call v a =>
+      rw [declScalar_date_call] at h
+      simp only [SelfConsistent, validateScalar_nil_iff] at hc ⊢
+      intro w hw
+      grind [ScalarS.fixed, ConformsScalar]
+    case float.call v mn mx p d1 d2 a =>
+      rw [declScalar_float_call] at h
+      simp only [SelfConsistent, validateScalar_nil_iff] at hc ⊢
+      intro w hw
+      cases ha : argFloat a with
+      | none => simp [ha] at h
+      | some f =>
+        have := argFloat_eq a f ha
+        subst this
+        have hf : f ≠ .nan := by intro hf; subst hf; exact hn
+        have := floatValueOk_self env f p hf
+        grind [ScalarS.fixed, ConformsScalar]
+    case float.min v mn mx p d1 d2 a =>
+      rw [declScalar_float_min] at h
+      simp only [SelfConsistent, validateScalar_nil_iff] at hc ⊢
+      intro w hw
+      grind [ScalarS.fixed, ConformsScalar]
+    case float.max v mn mx p d1 d2 a =>
+      rw [declScalar_float_max] at h
+      simp only [SelfConsistent, validateScalar_nil_iff] at hc ⊢
+      intro w hw
+      grind [ScalarS.fixed, ConformsScalar, PyFloat.ge]
+    case float.precision v mn mx p d1 d2 a =>
+      rw [declScalar_float_precision] at h
+      simp only [SelfConsistent, validateScalar_nil_iff] at hc ⊢
+      intro w hw
+      have := floatValueOk_self_ne_nan env
+      have := floatValueOk_self env
+      grind [ScalarS.fixed, ConformsScalar]
+    case str.call v L al sub pat a =>
+      rw [declScalar_str_call] at h
+      simp only [SelfConsistent, validateScalar_nil_iff] at hc ⊢
+      intro w hw
+      grind [ScalarS.fixed, ConformsScalar, LenOK, LenP.anySet]
+    case str.alphabet v L al sub pat a =>
+      rw [declScalar_str_alphabet] at h
+      simp only [SelfConsistent, validateScalar_nil_iff] at hc ⊢
+      intro w hw
+      grind [ScalarS.fixed, ConformsScalar]
+    case str.contains v L al sub pat a =>
+      rw [declScalar_str_contains] at h
+      simp only [SelfConsistent, validateScalar_nil_iff] at hc ⊢
+      intro w hw
+      grind [ScalarS.fixed, ConformsScalar, isInfixB]
+    case str.regex v L al sub pat a =>
+      rw [declScalar_str_regex] at h
+      simp only [SelfConsistent, validateScalar_nil_iff] at hc ⊢
+      intro w hw
+      grind [ScalarS.fixed, ConformsScalar, RegexFactOK]
+    case str.len v L al sub pat a b =>
+      rw [declScalar_str_len] at h
+      split at h
+      · cases h
+      · rename_i hg
+        simp at hg
+        obtain ⟨L', h1, h2⟩ := bind_ok _ _ _ h
+        have hlen := strLenDispatch_ok v L a b L' hg.1 h1
+        simp [pure, Except.pure] at h2
+        subst h2
+        simp only [SelfConsistent, validateScalar_nil_iff] at hc ⊢
+        intro w hw
+        cases v with
+        | none => simp [ScalarS.fixed] at hw
+        | some s =>
+          simp [ScalarS.fixed] at hw
+          subst hw
+          have hc' := hc (.str s) (by simp [ScalarS.fixed])
+          have hl := hlen s rfl
+          simp only [ConformsScalar] at hc' ⊢
+          obtain ⟨s', hs', h1', _, h3', h4', h5'⟩ := hc'
+          cases hs'
+          exact ⟨s, rfl, h1', hl, h3', h4', h5'⟩
+
+/-- K6 witness: without `OpNoNaN` the statement is false -/
+theorem selfConsistent_nan_counterexample (env : Env) :
+    ∃ k', declScalar (.float none none none none none none) (.call (.v (.float .nan))) = .ok k' ∧ ¬ SelfConsistent env k' := by
+  refine ⟨.float (some .nan) none none none none none, rfl, ?_⟩
+  intro hc
+  have := hc (.float .nan) rfl
+  simp [validateScalar, floatValueOk, isclose, PyFloat.eq] at this
+
+end D42
